@@ -991,6 +991,8 @@ class Interp:
             m = ctx.force(args[0])
             if m is None:
                 return None
+            if ctx.opts.get('trace_shared'):
+                ctx.event('acc', 'w', ('map', m.cell), ctx.cur_pos)
             ents = ctx.store[m.cell]
             out = []
             for (k, v) in ents:
@@ -1475,6 +1477,8 @@ def h_lookup(I, fr, ins):
     ut, tj = I.prog.under(ins['xt'])
     zero = I.prog.zero(tj['elem'])
     found, val = False, zero
+    if m is not None and ctx.opts.get('trace_shared'):
+        ctx.event('acc', 'r', ('map', m.cell), ins.get('pos', ''))
     if m is not None:
         for (k, v) in ctx.store[m.cell]:
             if ctx.branch(I.eq(k, key)):
@@ -1490,6 +1494,8 @@ def h_mapupdate(I, fr, ins):
     val = I.val(fr, ins['z'])
     if m is None:
         raise GoPanic('assignment-to-nil-map', ins.get('pos', ''))
+    if ctx.opts.get('trace_shared'):
+        ctx.event('acc', 'w', ('map', m.cell), ins.get('pos', ''))
     ents = list(ctx.store[m.cell])
     for i, (k, v) in enumerate(ents):
         if ctx.branch(I.eq(k, key)):
@@ -1575,6 +1581,8 @@ def h_range(I, fr, ins):
         fr.regs[ins['r']] = RangeIter('map', [])
         return
     if isinstance(x, MapRef):
+        if ctx.opts.get('trace_shared'):
+            ctx.event('acc', 'r', ('map', x.cell), ins.get('pos', ''))
         fr.regs[ins['r']] = RangeIter('map', list(ctx.store[x.cell]))
         return
     raise Inconclusive('range over %r' % (x,))
@@ -1633,6 +1641,8 @@ def h_store(I, fr, ins):
     v = I.val(fr, ins['y'])
     if a is None:
         raise GoPanic('nil-deref', ins.get('pos', ''))
+    if ctx.opts.get('trace_shared') and isinstance(a, Ptr) and a.path and isinstance(ctx.force(v) if not isinstance(v, Lazy) else None, MapRef):
+        ctx.event('acc', 'w', ('field', a.cell, a.path), ins.get('pos', ''))
     ctx.store_(a, v)
 
 
@@ -1683,6 +1693,8 @@ def h_unop(I, fr, ins):
             raise GoPanic('nil-deref', ins.get('pos', ''))
         if not isinstance(p, Ptr):
             raise Inconclusive('load through %r at %s' % (p, ins.get('pos')))
+        if ctx.opts.get('trace_shared') and p.path and I.prog.kind(ins['t']) == 'map':
+            ctx.event('acc', 'r', ('field', p.cell, p.path), ins.get('pos', ''))
         fr.regs[ins['r']] = ctx.load(p)
         return
     if o == '!':
